@@ -144,6 +144,15 @@ theorem C02_resolve_complete (cands : List MapAdd) (a : Nat) (pre later : List M
     unfold resolveDecl.go
     rw [ih]
 
+/-- Completeness through the hierarchy: where no regular mapping is live, a declared perf-map function that
+covers the address and that no later line displaces is the one the address resolves to. -/
+theorem C02_resolve_complete_jit (q : List (Nat × MapAdd)) (t a : Nat) (pre later : List MapAdd) (m : MapAdd)
+    (hreg : resolveDecl q t a = none) (hc : covers m a = true) (hl : later.any (overlaps m) = false) :
+    resolveH q t (pre ++ m :: later) a = some m := by
+  unfold resolveH
+  rw [hreg]
+  exact C02_resolve_complete _ a pre later m rfl hc hl
+
 /-- Call-chain order: the emitted frame list is the root-first list of the recorded frames (the chain
 reversed, each frame attributed by the second pass) with every JS-classified frame expanded to label frame +
 native frame (`expandJs`, the declarative look-back rule); nothing else is dropped or invented: between one
@@ -230,6 +239,37 @@ example : resolveDecl C02_exQ 20 0x2800 = some ⟨0x2000, 0x3000, 0x100, "b", no
 example : resolveDecl C02_exQ 25 0x4000 = none := by decide
 example : expectFrame C02_exQ 30 (.ret 0x5000 false) = .raw 0x4fff := by decide
 example : expectFrame C02_exQ 30 (.ip 0x5000 false) = .lib "c" 0 := by decide
+
+/-! ### Non-vacuity: a perf map with a displaced function, a regular mapping that wins, JS label frames -/
+def C02_exLines : List (List Char) :=
+  ["5000 10 py::f".toList, "not a line".toList, "0x5010 0x20 Builtin:x".toList, "7000 40 Interpreter: run (a.js:3:4)".toList,
+   "7010 10 Ion: late".toList, "2800 10 py::shadowed".toList]
+
+def C02_exPm : List MapAdd := pmDecl "/tmp/perf-100.map" 0 (C02_exLines.filterMap parsePmLine)
+
+example : (C02_exLines.filterMap parsePmLine).length = 5 := by decide
+example : C02_exPm.map (·.rel) = [0, 0x10, 0x30, 0x70, 0x80] := by decide
+example : loadPmLines "/tmp/perf-100.map" [] 0 (C02_exLines.filterMap parsePmLine) = some (C02_exPm.foldl applyAdd []) := by
+  decide
+-- a regular mapping covers 0x2800: the perf-map function declared there is never consulted
+example : (resolveH C02_exQ 20 C02_exPm 0x2800).map (·.lib) = some "b" := by decide
+-- before the regular mappings are announced the perf-map function resolves
+example : (resolveH C02_exQ 5 C02_exPm 0x2800).map (fun m => (m.lib, m.rel)) = some ("/tmp/perf-100.map", 0x80) := by decide
+-- "Ion: late" [0x7010, 0x7020) displaced the whole of "Interpreter: run" [0x7000, 0x7040)
+example : resolveH C02_exQ 30 C02_exPm 0x7008 = none := by decide
+example : (expectInfo C02_exQ 30 C02_exPm (.ret 0x7020 false)) =
+    { frame := .lib "/tmp/perf-100.map" 0x7f, js := some (.regular (.nonSelfHosted "late")) } := by decide
+example : expandJs [expectInfo C02_exQ 25 C02_exPm (.ip 0x5001 false), expectInfo C02_exQ 25 C02_exPm (.ret 0x5011 false),
+      expectInfo C02_exQ 25 C02_exPm (.ret 0x9000 false)] =
+    [.label "f", .lib "/tmp/perf-100.map" 1, .lib "/tmp/perf-100.map" 0x10, .raw 0x8fff] := by decide
+-- the baseline-interpreter hand-over: regular x, plain, BaselineInterpreter (takes x), BaselineInterpreter (nothing left)
+example : expandJs [⟨.raw 1, some (.regular (.nonSelfHosted "x"))⟩, ⟨.raw 2, none⟩, ⟨.raw 3, some .baselineInterp⟩,
+      ⟨.raw 4, some .baselineInterp⟩, ⟨.raw 5, some (.stub (.selfHosted "s"))⟩] =
+    [.label "x", .raw 1, .raw 2, .label "x", .raw 3, .raw 4, .raw 5] := by decide
+-- arithmetic panics of the loader
+example : loadPmLines "p" [] 0 [⟨2 ^ 64 - 1, 1, ['f']⟩] = none := by decide
+example : loadPmLines "p" [] 0 [⟨0, 2 ^ 32 - 1, ['f']⟩, ⟨0, 1, ['g']⟩] = none := by decide
+example : (loadPmLines "p" [] 0 [⟨0, 2 ^ 32, ['f']⟩, ⟨0, 1, ['g']⟩]).isSome = true := by decide
 
 /-! ## Segment-based attribution (the mapped file is present on disk)
 
